@@ -46,7 +46,7 @@ def AllGoodG (batch : Nat) (p : Params) (own : Own) (wallets : List Wid) (w : Wi
 
 /-- the state invariant of general histories -/
 def GInv (batch : Nat) (p : Params) (own : Own) (wallets : List Wid) (w : Wid) (G0 : Block) (sys : XSys) : Prop :=
-  ChainFacts batch own G0 sys.node.known sys.node.chain ∧
+  ChainFacts batch own G0 sys.node.known sys.node.chain ∧ KeysNodup sys.s.unspent ∧
   ∃ X, ChainFacts batch own G0 sys.node.known X ∧
     IJ { p := p, own := own, wallets := wallets, node := sys.node } w sys.s X ∧ sys.v.best = tipMeta X
 
@@ -70,9 +70,10 @@ theorem ij_batch {batch : Nat} (hb : batch > 0) {c : Ctx} {w : Wid} (hKN : KeysN
     (hst : AMap.get s.status w = some ws) (hk : ws.synced = some k) (hrm : ws.removed = false)
     (hbest : v.best.height + 1 = c.node.chain.length) (hle : k ≤ v.best.height) (hnw : k + batch < 2 ^ 64)
     (hAR : AllReady (ownR c.own w) (readyWallets s c.wallets)) (hne : (readyWallets s c.wallets).isEmpty = false) :
-    ∃ s1 v1 fin, importStep batch c w s v = .ok (s1, v1, fin) ∧ IJ c w s1 c.node.chain ∧ v1.best = v.best := by
+    ∃ s1 v1 fin, importStep batch c w s v = .ok (s1, v1, fin) ∧ IJ c w s1 c.node.chain ∧ v1.best = v.best ∧
+      (KeysNodup s.unspent → KeysNodup s1.unspent) := by
   obtain ⟨s1, v1, h1, hS1, hst1, hv1, hO1⟩ := importStep_scanJ hb hKN hC hS (List.contains_iff_mem.2 hw) hst hk hbest hle hnw
-  refine ⟨s1, v1, _, h1, ?_, hv1⟩
+  refine ⟨s1, v1, _, h1, ?_, hv1, hO1.2.2⟩
   have hAR1 : AllReady (ownR c.own w) (readyWallets s1 c.wallets) := allReady_others hKN hAR hO1.2.1
   by_cases hfin : nextStop batch k v.best.height = v.best.height
   · right
@@ -119,14 +120,14 @@ theorem stepG_inv (hb : batch > 0) (hKN : KeysNodup own) (hw : w ∈ wallets)
     (sys : XSys) (hp0 : ∀ x, AMap.get sys.node.known x.id = some x → G0.prev ≠ x.id)
     (e : GEv) (hgood : GoodG batch own G0 sys e) (hI : GInv batch p own wallets w G0 sys) :
     GInv batch p own wallets w G0 (stepG batch p own wallets w sys e) := by
-  obtain ⟨hN, X, hX, hIJ, hv⟩ := hI
+  obtain ⟨hN, hU, X, hX, hIJ, hv⟩ := hI
   have hinj : IdInj (X ++ sys.node.chain) := idInj_of_known (known := sys.node.known) (fun x hx => by
     rcases List.mem_append.1 hx with h | h
     · exact hX.known x h
     · exact hN.known x h)
   cases e with
   | node ch =>
-    exact ⟨hgood, X, hX, ij_node _ hIJ, hv⟩
+    exact ⟨hgood, hU, X, hX, ij_node _ hIJ, hv⟩
   | block b =>
     have hb' : sys.node.chain[b.height]? = some b := hgood
     have hbl : b.height < sys.node.chain.length := (List.getElem?_eq_some_iff.1 hb').1
@@ -143,8 +144,11 @@ theorem stepG_inv (hb : batch > 0) (hKN : KeysNodup own) (hw : w ∈ wallets)
     have hstep : stepG batch p own wallets w sys (.block b) = { sys with s := s', v := v' } := by
       simp only [stepG]
       rw [hpb]
+    have hU' : KeysNodup s'.unspent := by
+      have := wf_processBlock (c := { p := p, own := own, wallets := wallets, node := sys.node }) (v := sys.v) (b := b) hU
+      rw [hpb] at this; exact this
     rw [hstep]
-    exact ⟨hN, sys.node.chain.take (b.height + 1), chainFacts_take hN _, hI', hv'⟩
+    exact ⟨hN, hU', sys.node.chain.take (b.height + 1), chainFacts_take hN _, hI', hv'⟩
   | batch =>
     have hnode : (stepX batch p own wallets w sys .batch).node = sys.node := by
       simp only [stepX]
@@ -156,7 +160,7 @@ theorem stepG_inv (hb : batch > 0) (hKN : KeysNodup own) (hw : w ∈ wallets)
     · have hbestX := best_of_tip hX.good hv
       have hlenX := hX.len
       -- the batch run against the follower's own chain
-      obtain ⟨s1, v1, fin, h1, hIJ1, hv1⟩ := ij_batch hb
+      obtain ⟨s1, v1, fin, h1, hIJ1, hv1, hU1⟩ := ij_batch hb
         (c := { p := p, own := own, wallets := wallets, node := { sys.node with chain := X } }) (w := w) hKN
         ⟨hX.valid, hX.good.heights⟩ hw (s := sys.s) (v := sys.v)
         (⟨hS.agree, hS.blocks, hS.txpos, hS.bal, hS.balR, hS.sync, hS.syncedTo⟩ : ScanJ _ w sys.s k)
@@ -206,18 +210,18 @@ theorem stepG_inv (hb : batch > 0) (hKN : KeysNodup own) (hw : w ∈ wallets)
           subst hk
           simp only [stepX, hst, hok]
         rw [hstep]
-        exact ⟨hN, X, hX, ij_node sys.node hIJ1, by show v1.best = _; rw [hv1]; exact hv⟩
+        exact ⟨hN, hU1 hU, X, hX, ij_node sys.node hIJ1, by show v1.best = _; rw [hv1]; exact hv⟩
       · have hstep : stepX batch p own wallets w sys .batch = sys := by
           obtain ⟨sy, rm⟩ := ws
           simp only at hk
           subst hk
           simp only [stepX, hst, herr]
         rw [hstep]
-        exact ⟨hN, X, hX, Or.inl ⟨ws, k, hst, hk, hrm, hle, hS, hAR, hne⟩, hv⟩
+        exact ⟨hN, hU, X, hX, Or.inl ⟨ws, k, hst, hk, hrm, hle, hS, hAR, hne⟩, hv⟩
     · have hstep : stepX batch p own wallets w sys .batch = sys := by
         simp only [stepX, hst]
       rw [hstep]
-      exact ⟨hN, X, hX, Or.inr ⟨hst, hI, hAR⟩, hv⟩
+      exact ⟨hN, hU, X, hX, Or.inr ⟨hst, hI, hAR⟩, hv⟩
 
 theorem stepG_known (sys : XSys) (e : GEv) :
     (stepG batch p own wallets w sys e).node.known = sys.node.known := by
@@ -248,8 +252,9 @@ theorem ginv_caught_up {sys : XSys} (hI : GInv batch p own wallets w G0 sys)
     (hdone : AMap.get sys.s.status w = some ⟨none, false⟩)
     (hbest : sys.v.best.height + 1 = sys.node.chain.length)
     (hsync : ∀ h b, sys.node.chain[h]? = some b → AMap.get sys.s.sync h = some b.id) :
-    Inv { p := p, own := own, wallets := wallets, node := sys.node } sys.s sys.node.chain := by
-  obtain ⟨hN, X, hX, hIJ, hv⟩ := hI
+    Inv { p := p, own := own, wallets := wallets, node := sys.node } sys.s sys.node.chain ∧ KeysNodup sys.s.unspent := by
+  obtain ⟨hN, hU, X, hX, hIJ, hv⟩ := hI
+  refine ⟨?_, hU⟩
   have hinj : IdInj (X ++ sys.node.chain) := idInj_of_known (known := sys.node.known) (fun x hx => by
     rcases List.mem_append.1 hx with h | h
     · exact hX.known x h
